@@ -32,6 +32,7 @@ ENV = {"CELER_LOG": "critical", "CELER_LOG_LOCAL": "critical"}
 JVM = {"JAVA_TOOL_OPTIONS": "-XX:ParallelGCThreads=2 -XX:CICompilerCount=2"}
 MC_WORLDS = ["mc_rzp", "mc_imp", "nested3"]
 F_NAV_1 = "rotated-daughter-setdir-on-shallower-surface"
+OPS = ("Find", "FindMax", "MoveI", "MoveB", "Cross", "SetDir", "Safety", "MoveTo", "SafetyMax", "Copy")
 
 
 # Debugging knobs (mutation screening): VERIF_NAV_WORLDS=a,b restricts the replayed lattice worlds,
@@ -134,18 +135,18 @@ def brief(r):
     arg = ""
     if e == "Init":
         arg = "(pos=%s, dir=%s)" % (r["pos"], r["dir"])
-    elif e == "FindMax":
+    elif e in ("FindMax", "SafetyMax"):
         arg = "(%d)" % r["m"]
     elif e == "MoveI":
         arg = "(%d)" % r["x"]
-    elif e == "SetDir":
+    elif e in ("SetDir", "Copy"):
         arg = "(%s)" % r["dir"]
     elif e == "MoveTo":
         arg = "(%s)" % r["p"]
     res = ""
     if e in ("Find", "FindMax"):
         res = " -> d=%s b=%s" % (r["d"] if r.get("dok") else "non-lattice", r["b"])
-    if e == "Safety":
+    if e in ("Safety", "SafetyMax"):
         res = " -> s^2 in [%s,%s]" % (r["s2f"], r["s2c"])
     return "%s%s%s  [vol=%s onb=%s out=%s pos=%s lev=%s slev=%s %s]" % (
         e, arg, res, r.get("vol"), r.get("onb"), r.get("out"), r.get("rpos"), r.get("lev"), r.get("slev"), r.get("bres"))
@@ -239,9 +240,9 @@ def replay(ctx, files, mode, prefixes, explore_bound=0, maxcalls=400000, nwalks=
         tot["unjudged"] += st["unjudged"]
         tot["safety"] += st["Safety"]
         tot["safety_pos"] += st["safety_pos"]
-        ncalls = sum(st[k] for k in ("Find", "FindMax", "MoveI", "MoveB", "Cross", "SetDir", "Safety", "MoveTo"))
+        ncalls = sum(st[k] for k in OPS)
         tot["calls"] += ncalls
-        for k in ("Find", "FindMax", "MoveI", "MoveB", "Cross", "SetDir", "Safety", "MoveTo"):
+        for k in OPS:
             tot["per_op"][k] = tot["per_op"].get(k, 0) + st[k]
         recs = None
         if kind.startswith("explore"):
@@ -524,7 +525,9 @@ def fixtures(ctx, prefixes, nrays, nwalks, nprobes, nturns=0, maxpar=8, nshards=
             job, rel = where(v["first"])
             fx = os.path.basename(job[0]) if job else "?"
             tot["dev"][dname] = tot["dev"].get(dname, 0) + v["n"]
-            if any(p.startswith("C03") for p in prefixes):
+            # deviations of the safety clauses belong to C11, all others to C03
+            owner = "C11" if dname.startswith("Safety") else "C03"
+            if any(p.startswith(owner) for p in prefixes):
                 ctx.violation("named deviation %s: %d hits on fixture %s (first at record %d)\n%s"
                               % (dname, v["n"], fx, rel, _context(job[2], job[3], rel) if job else ""),
                               tags={"deviation": dname, "fixture": fx}, files=[job[2], job[3]] if job else [path])
